@@ -196,6 +196,8 @@ def resolve(key: str) -> FnRef:
         cand = None
         for n in ast.walk(ast.Module(body=body, type_ignores=[])) if node is not None else body:
             if isinstance(n, (ast.FunctionDef, ast.ClassDef)) and n.name == p and n is not node:
+                if isinstance(n, ast.FunctionDef) and _is_overload(n):
+                    continue  # a `@typing.overload` stub (body `...`) is never the function that runs (as class_member)
                 cand = n
                 break
         if cand is None:
